@@ -422,6 +422,7 @@ def cycle_update_rules(ctx):
     formulas.schedule_cost_signs(ctx, "R3")
     formulas.transition_total_signs(ctx, "R3")
     formulas.transition_formulas(ctx, "R3")
+    formulas.transition_counter_deltas(ctx, "R3")
     common.bookkeeping_sees_new_maps(ctx, "R3", common.sites_of(ctx, SCHEDULE))
 
 
